@@ -200,7 +200,7 @@ LIB_MODULES = {'numpy': 'np', 'scipy': 'scipy', 'scipy.sparse': 'sps', 'scipy.sp
                'matplotlib.colors': 'mpl', 'scipy.sparse.linalg._dsolve': 'spsla', 'platform': 'platform', 'glob': 'glob',
                're': 're', 'ctypes': 'ctypes', 'ctypes.util': 'ctypes', 'subprocess': 'subprocess', 'collections': 'collections',
                'collections.abc': 'collections', 'scipy.ndimage': 'ndimage', 'datetime': 'datetime', 'importlib': 'importlib',
-               'importlib.util': 'importlib'}
+               'importlib.util': 'importlib', 'pathlib': 'pathlib'}
 
 
 class Interp:
@@ -814,6 +814,8 @@ class Interp:
             return Fraction(repr(v))
         if isinstance(v, complex):
             return Cx(Fraction(repr(v.real)), Fraction(repr(v.imag)))
+        if isinstance(v, bytes):
+            return v.decode('latin-1')      # token model: bytes and str are both text tokens (encode/decode are identities)
         return v
 
     def lookup(self, name, env):
